@@ -238,7 +238,7 @@ func (e *Exec) stringEq(x, y Slice) sym.Sc {
 		n := int(x.Len.V)
 		r := sym.Bool(true)
 		for i := 0; i < n; i++ {
-			r = sym.And(r, sym.Eq(x.St.peek(x.Off+i).(sym.Sc), y.St.peek(y.Off+i).(sym.Sc)))
+			r = sym.And(r, sym.Eq(x.St.peek(e.o(x)+i).(sym.Sc), y.St.peek(e.o(y)+i).(sym.Sc)))
 			if r.IsFalse() {
 				return r
 			}
@@ -267,8 +267,8 @@ func (e *Exec) stringLess(op token.Token, x, y Slice) sym.Sc {
 		n = ny
 	}
 	for i := n - 1; i >= 0; i-- {
-		a := x.St.peek(x.Off + i).(sym.Sc)
-		b := y.St.peek(y.Off + i).(sym.Sc)
+		a := x.St.peek(e.o(x) + i).(sym.Sc)
+		b := y.St.peek(e.o(y) + i).(sym.Sc)
 		same := sym.Eq(a, b)
 		lt = e.norm(sym.Or(sym.Ult(a, b), sym.And(same, lt)))
 		eq = e.norm(sym.And(same, eq))
@@ -302,10 +302,10 @@ func (e *Exec) concat(x, y Slice) Slice {
 	}
 	st := e.newStore(byteT, i64(nx+ny))
 	for i := 0; i < nx; i++ {
-		*st.cell(i) = x.St.peek(x.Off + i)
+		*st.cell(i) = x.St.peek(e.o(x) + i)
 	}
 	for i := 0; i < ny; i++ {
-		*st.cell(nx + i) = y.St.peek(y.Off + i)
+		*st.cell(nx + i) = y.St.peek(e.o(y) + i)
 	}
 	return Slice{St: st, Len: st.N, Cap: st.N}
 }
@@ -318,7 +318,7 @@ func (e *Exec) copyBytes(x Slice, keepNonNil bool) Slice {
 	}
 	st := e.newStore(byteT, i64(n))
 	for i := 0; i < n; i++ {
-		*st.cell(i) = x.St.peek(x.Off + i)
+		*st.cell(i) = x.St.peek(e.o(x) + i)
 	}
 	return Slice{St: st, Len: st.N, Cap: st.N}
 }
@@ -449,7 +449,7 @@ func (e *Exec) indexAddr(x Value, idx sym.Sc, it types.Type) *Value {
 	switch x := x.(type) {
 	case Slice:
 		i := e.boundsIndex(idx, it, x.Len)
-		p := x.St.cell(x.Off + i)
+		p := x.St.cell(e.o(x) + i)
 		e.noteStoreCell(x.St, p)
 		return p
 	case *Value: // *array
@@ -515,14 +515,17 @@ func (e *Exec) sliceOp(instr *ssa.Slice, x, lo, hi, max Value) Value {
 	if !e.Branch(e.norm(ok)) {
 		e.goPanic("slice bounds out of range")
 	}
-	lc := e.ConcInt(l)
-	r := Slice{St: base.St, Off: base.Off + lc, Len: sym.Sub(h, i64(lc)), Cap: sym.Sub(m, i64(lc))}
+	off := l
+	if base.Off.W != 0 {
+		off = sym.Add(base.Off, l)
+	}
+	r := Slice{St: base.St, Off: e.norm(off), Len: sym.Sub(h, l), Cap: sym.Sub(m, l)}
 	if isStr {
 		r.Cap = r.Len
 	}
 	r.Len, r.Cap = e.norm(r.Len), e.norm(r.Cap)
 	if base.St == nil {
-		r.Off = 0
+		r.Off = i64zero
 	}
 	return r
 }
@@ -580,7 +583,7 @@ func (e *Exec) lookup(instr *ssa.Lookup, x, idx Value) Value {
 		return v
 	case Slice: // string index
 		i := e.boundsIndex(idx.(sym.Sc), instr.Index.Type(), x.Len)
-		return x.St.peek(x.Off + i)
+		return x.St.peek(e.o(x) + i)
 	}
 	e.unsupported("lookup on %T", x)
 	return nil
@@ -623,7 +626,7 @@ func (it *stringIter) next(e *Exec) Tuple {
 	if it.i >= it.n {
 		return Tuple{sym.Bool(false), i64zero, sym.Const(32, 0)}
 	}
-	b := it.s.St.peek(it.s.Off + it.i).(sym.Sc)
+	b := it.s.St.peek(e.o(it.s) + it.i).(sym.Sc)
 	if !e.Branch(sym.Ult(b, sym.Const(8, 0x80))) {
 		e.unsupported("range over string with non-ASCII byte")
 	}
@@ -747,9 +750,9 @@ func (e *Exec) appendOp(s, add Slice, fn *ssa.Builtin) Value {
 	room := sym.Sle(i64(ns+na), s.Cap)
 	if s.St != nil && e.Branch(room) {
 		for i := 0; i < na; i++ {
-			p := s.St.cell(s.Off + ns + i)
+			p := s.St.cell(e.o(s) + ns + i)
 			e.noteStoreCell(s.St, p)
-			*p = copyVal(add.St.peek(add.Off + i))
+			*p = copyVal(add.St.peek(e.o(add) + i))
 		}
 		return Slice{St: s.St, Off: s.Off, Len: i64(ns + na), Cap: s.Cap}
 	}
@@ -773,10 +776,10 @@ func (e *Exec) appendOp(s, add Slice, fn *ssa.Builtin) Value {
 	}
 	st := e.newStore(elem, i64(nc))
 	for i := 0; i < ns; i++ {
-		*st.cell(i) = copyVal(s.St.peek(s.Off + i))
+		*st.cell(i) = copyVal(s.St.peek(e.o(s) + i))
 	}
 	for i := 0; i < na; i++ {
-		*st.cell(ns + i) = copyVal(add.St.peek(add.Off + i))
+		*st.cell(ns + i) = copyVal(add.St.peek(e.o(add) + i))
 	}
 	return Slice{St: st, Len: i64(ns + na), Cap: st.N}
 }
@@ -798,10 +801,10 @@ func (e *Exec) copyOp(dst, src Slice) Value {
 	}
 	tmp := make([]Value, n)
 	for i := 0; i < n; i++ {
-		tmp[i] = copyVal(src.St.peek(src.Off + i))
+		tmp[i] = copyVal(src.St.peek(e.o(src) + i))
 	}
 	for i := 0; i < n; i++ {
-		p := dst.St.cell(dst.Off + i)
+		p := dst.St.cell(e.o(dst) + i)
 		e.noteStoreCell(dst.St, p)
 		*p = tmp[i]
 	}
@@ -828,7 +831,18 @@ func describe(v Value) string {
 	case sym.Sc:
 		return v.String()
 	case Slice:
-		return fmt.Sprintf("slice(off=%d,len=%s)", v.Off, v.Len)
+		return fmt.Sprintf("slice(off=%s,len=%s)", v.Off, v.Len)
 	}
 	return fmt.Sprintf("%T", v)
+}
+
+// o returns the concrete element offset of a view (concretising a symbolic one).
+func (e *Exec) o(s Slice) int {
+	if s.Off.W == 0 {
+		return 0
+	}
+	if s.Off.K {
+		return int(int64(s.Off.V))
+	}
+	return e.ConcInt(s.Off)
 }
